@@ -329,10 +329,26 @@ def r19_3(ctx: Ctx, entry):
     if not done:
         ctx.ob("R19.3", f"{entry.qual}: report_id assignment", entry, False,
                "no assignment to ['report_id'] in the command", key="R19.3|report|report_id-missing")
-    # the hash is taken over the *input* path opened in binary mode
+    # wherever the command's module computes a SHA-256, it is over bytes as they were read -- never over text that was decoded
+    # (universal newlines, error handlers) and encoded again
+    for hf in sorted((f for f in ctx.cg.reach([entry]) if f.module.rel == entry.module.rel and f is not entry), key=lambda f: f.key):
+        hfd = ctx.dep.of(hf)
+        for c in own_nodes(hf):
+            if isinstance(c, ast.Call) and dotted(c.func) in ("hashlib.sha256",):
+                atoms = full(hfd.deps_of(c))
+                ok = "call:encode" not in atoms
+                ctx.ob("R19.3", f"{hf.qual}: {norm(c)[:60]}", (hf, c), ok,
+                       "hash input is not re-encoded text" if ok else
+                       "the SHA-256 is taken over text that was decoded and encoded again: CRLF / lone-CR input (universal newlines) or "
+                       "undecodable bytes give a report_id that is not the SHA-256 of the input bytes",
+                       key=key_of("R19.3", hf, c))
     for c in own_nodes(entry):
         if isinstance(c, ast.Call) and dotted(c.func) in ("hashlib.sha256",):
             atoms = full(fd.deps_of(c))
+            if "call:encode" in atoms:
+                ctx.ob("R19.3", f"{entry.qual}: {norm(c)[:60]} over re-encoded text", (entry, c), False,
+                       "the SHA-256 is taken over text that was decoded and encoded again, not over the input bytes",
+                       key=key_of("R19.3", entry, c, "encode"))
             ok = "call:read" in atoms and bool(atoms & {"param:tjp_file", "call:validate_tjp_file", "call:mkstemp"})
             ctx.ob("R19.3", f"{entry.qual}: {norm(c)[:60]}", (entry, c), ok,
                    "hash input is the project file's bytes" if ok else "hash input is not the project file",
@@ -368,6 +384,32 @@ def r19_3_spool(ctx: Ctx, entry):
                        key="R19.3|report|stdin spool verbatim")
     if not n:
         raise AnchorMissing("plan.report: stdin spool (os.fdopen) not found")
+
+
+def r19_7(ctx: Ctx):
+    """Report.generate reaches its per-format dispatch on every path that returns normally: there is no way to "succeed" without
+    having asked each requested format's writer (a header-only table is still a report; CFG dominance)."""
+    from ..cfg import cfg_of
+    gen = ctx.repo.func("Report.generate")
+    g = cfg_of(gen)
+    loops = [n for n in g.nodes if n.ast is not None and isinstance(n.ast, ast.For) and n.kind in ("for", "loop", "foriter", "while")
+             and "format" in norm(n.ast.iter).lower()]
+    if not loops:
+        loops = [n for n in g.nodes if isinstance(n.ast, ast.For) and "format" in norm(n.ast.iter).lower()]
+    if not loops:
+        raise AnchorMissing("Report.generate: loop over the requested formats not found")
+    head = loops[0]
+    dom = g.dominators()
+    rets = [n for n in g.nodes if isinstance(n.ast, ast.Return)]
+    if not rets:
+        raise AnchorMissing("Report.generate: no return statement")
+    for r in rets:
+        ok = head.id in dom.get(r.id, ())
+        ctx.ob("R19.7", f"{gen.qual}: return at line {r.ast.lineno} is reached through the format loop", (gen, r.ast), ok,
+               "every requested format's writer has been asked before generate() reports success" if ok else
+               "this return leaves generate() before the per-format dispatch: no file is written although the call reports success, and "
+               "`plan report` then fails with 'no output file' (exit 2) for a project whose report is merely empty",
+               key=key_of("R19.7", gen, None, f"return {norm(r.ast)}"))
 
 
 def r19_6(ctx: Ctx):
@@ -411,6 +453,8 @@ def run(ctx: Ctx):
     r19_3_spool(ctx, entry)
     r19_5(ctx)
     r19_6(ctx)
+    r19_7(ctx)
+    ctx.floor("R19.7", 1)
     ctx.stats["branches_decided_by_constants"] = len(set(pr.pruned_branches))
     ctx.floor("R19.1", 5)
     ctx.floor("R19.2", 10)
